@@ -104,6 +104,11 @@ public:
     vt_[1] = 0;
     vt_[2] = 0;
     vt_[3] = 0;
+    // every other byte of the fake object is a defined zero: code that reaches into istream internals the model does
+    // not provide (e.g. a std::getline inlined into the code under test) then runs into null facets / buffers and ends
+    // in a reported throw or null dereference instead of an "uninitialised read" the driver only lists
+    for (unsigned i = 0; i < sizeof(raw_); ++i)
+      raw_[i] = 0;
     *reinterpret_cast<long **>(raw_) = &vt_[3];
     // libstdc++ ios_base: vptr, _M_precision, _M_width (8 each), _M_flags, _M_exception (4 each), _M_streambuf_state
     // at offset 32 (the native build asserts this layout against the real class, see the other holder)
@@ -245,6 +250,8 @@ template <typename Ch>
 void model_iss_ctor(void *const self, std::basic_string<Ch> &&s)
 {
   unsigned char *const raw = static_cast<unsigned char *>(self);
+  for (unsigned i = 0; i < sizeof(std::basic_istringstream<Ch>); ++i)
+    raw[i] = 0; // see basic_holder: no uninitialised bytes in the fake object
   *reinterpret_cast<long **>(raw) = &iss_vt[3];
   // the inlined destructor destroys the stringbuf's std::string (at 16 + 72): give it the empty small-string state
   *reinterpret_cast<unsigned char **>(raw + 88) = raw + 104;
